@@ -83,7 +83,8 @@ def c03_writers(repo):
 
 
 def c17_writers(repo):
-    return _frame(repo, "C17.writers", ["contracts/axelar-operators/src/contract.rs"], r"\bkey\b|DataKey::Operators", ["add_operator", "remove_operator"], "DataKey::Operators")
+    # every direct storage write in the operators contract is a write to the operator set (the owner / migration keys are written through axelar-soroban-std)
+    return _frame(repo, "C17.writers", ["contracts/axelar-operators/src/contract.rs"], r".", ["add_operator", "remove_operator"], "DataKey::Operators")
 
 
 def c10_strict_flag(repo):
